@@ -4,9 +4,14 @@ import (
 	"encoding/binary"
 	"fmt"
 	"io"
+	"math"
 
 	"google.golang.org/protobuf/proto"
 )
+
+// maxMessageSize is the largest frame ReadMessage accepts.
+// A protocol buffer message cannot be larger than 2GiB.
+const maxMessageSize = math.MaxInt32
 
 //go:generate protoc --go_out=./ --python_out=./py/kapacitor/udf/ udf.proto
 
@@ -50,6 +55,10 @@ func ReadMessage(buf *[]byte, r ByteReadReader, msg proto.Message) error {
 	size, err := binary.ReadUvarint(r)
 	if err != nil {
 		return err
+	}
+	if size > maxMessageSize {
+		// Do not trust the peer: such a size cannot be allocated (or sliced, once it overflows int).
+		return fmt.Errorf("message size %d exceeds maximum message size %d", size, maxMessageSize)
 	}
 	if cap(*buf) < int(size) {
 		*buf = make([]byte, size)
